@@ -24,7 +24,12 @@ Inductive c04_case :=
    [stream] answers the first request (method [meth]), [seg2] is what the peer writes in answer
    to the second (a GET) on whichever connection it arrives; [same] = it arrived on the first
    connection *)
-| ConnCase (meth : bytes) (stream seg2 : bytes) (obs1 : obs_resp) (same : bool) (obs2 : obs_resp).
+| ConnCase (meth : bytes) (stream seg2 : bytes) (obs1 : obs_resp) (same : bool) (obs2 : obs_resp)
+(* a POST with a body sent with Expect: 100-continue, [stream] served by the raw peer either at
+   once behind the request head or ([late]) only after the peer has received the body (the
+   client's ExpectContinueTimeout has fired by then); [body_sent]: did the peer receive the
+   request body (measured only when the connection is kept) *)
+| ExpectCase (late : bool) (stream : bytes) (obs : obs_resp) (body_sent : option bool).
 
 Definition herr_eqb (a b : herr) : bool :=
   match a, b with
@@ -121,6 +126,16 @@ Definition c04_check (c : c04_case) : bool :=
            | None => true
            end)
       | _, _ => false
+      end
+  | ExpectCase late s o body_sent =>
+      match read_final_expect true 7 (bs "POST") 0 true s with
+      | (FhOk r rest, sigs) =>
+          view_matches r (read_body conn_bufsize r rest) o &&
+          match body_sent with
+          | Some u => Bool.eqb u (late || existsb is_send sigs)
+          | None => true
+          end
+      | (_, _) => match o with ORej _ => true | _ => false end
       end
   | ConnCase m s seg2 o1 same o2 =>
       match conn_exchanges reuse_real [] [(m, s); (bs "GET", seg2)] with
